@@ -7,11 +7,23 @@ computes for the position of `error.elem` in the tree (tags rendered with the er
 real `get_prefixed_qname`), and the model's evaluation of that path must be the singleton position
 (`path_selects_unique`, proved for all trees).
 
-Property evaluation on the real code (independent of Lean): an independent XPath child-step evaluator
-resolves every step name with `error.namespaces` and must select exactly `error.elem` in the parsed
-document; for every single-node fault from the catalogue, applied at every node of every generated valid
-document, the document must be reported invalid, at least one error must be located at the damaged node or
-its parent, and no error outside the damaged node's ancestor chain and subtree.  ElementTree and lxml trees.
+Property evaluation on the real code (independent of Lean): every `error.path` is read AS A USER WOULD, with the error's
+own `error.namespaces` as the prefix map, by three readers — the library's own `XMLResource.findall`, ElementTree's /
+lxml's `findall(path, namespaces)`, and an independent XPath child-step evaluator — and each of them must select
+exactly `error.elem` in the parsed document; for every single-node fault from the catalogue, applied at every node of
+every generated valid document, the document must be reported invalid, at least one error must be located at the damaged
+node or its parent, and no error outside the damaged node's ancestor chain and subtree.  ElementTree and lxml trees.
+Namespace declarations: one faulted document in four declares everything on the root (three layouts); the others are
+written by `to_xml_scoped` with xmlns declarations on NON-root elements — a new prefix, a new default namespace, a
+prefix rebound to another namespace, two prefixes swapped, the default namespace rebound to a foreign namespace, a
+redeclaration, an unused declaration (NS_ACTIONS) — on the damaged node itself, its parent, a sibling, a descendant or a
+non-root ancestor (NS_RELS), rotating so that every fault class meets every combination, plus random declarations
+elsewhere; names use the innermost binding.  The Lean model of the path (Model/PathsNs.lean: `getPath` on EXPANDED names,
+`renderPath` with the error's map, `userSelect` with the map the reader uses; theorem `scoped_path_selects`,
+`stale_map_counterexample`) is compared with `error.path` and with the readers for every error.
+Family `same`: the same local name in the target namespace, in no namespace and in a foreign namespace interleaved among
+the siblings (position = index among the siblings with the same expanded name).  Family `inh11`: XSD 1.1 inheritable
+attributes ("a single fault is always reported", finding C19-F3 = C04-F5).
 
 Fault localisation as a theorem (`single_fault_localised`, `observed_fault_localised`, Props/C19.lean): the
 validator is modelled as a compositional `Val` (Model/Localise.lean).  The run ties it to the code as follows:
@@ -39,10 +51,11 @@ from typing import Any, Optional
 
 from harness.core import Ctx, Driver
 
-PROPS = 'XsVerif.Props.C19'
+PROPS = ['XsVerif.Props.C19', 'XsVerif.Props.C19Ns']
 AUDIT = 'XsVerif.Audit.C19'
-LEAN_TARGETS = ['XsVerif.Props.C19', 'drv_c19']
-LEANCHECK = ['XsVerif.Model.Paths', 'XsVerif.Model.Localise', 'XsVerif.Lemmas.Localise', 'XsVerif.Props.C19']
+LEAN_TARGETS = ['XsVerif.Props.C19', 'XsVerif.Props.C19Ns', 'drv_c19']
+LEANCHECK = ['XsVerif.Model.Paths', 'XsVerif.Model.PathsNs', 'XsVerif.Model.Localise', 'XsVerif.Lemmas.Localise',
+             'XsVerif.Props.C19', 'XsVerif.Props.C19Ns']
 RULE = ('a case is (valid document, fault kind, damaged node, parser); non-trivial = the validator reported at '
         'least one error whose element has a same-named sibling (a positional predicate is needed) or lies at '
         'depth >= 2; distinct by canonical JSON of (document, fault, node, parser)')
@@ -55,8 +68,9 @@ TRUSTED = ['the XPath reading of a path (child steps, positional predicate among
            'and by comparing the predicted error list of every damaged document with iter_errors, not proved of the code',
            'ElementTree.iterparse read-ahead (which elements exist when a lazy error is created) is observed, not modelled: '
            'the model takes the number of started elements as a parameter']
-ASSUMPTIONS = ['documents declare their namespaces on the root element only (three layouts: prefixed, default, '
-               'both; qualified and unqualified local elements)',
+ASSUMPTIONS = ['namespaces are declared on the root only (three layouts) for one faulted document in four, on non-root '
+               'elements (7 kinds of declaration x 5 places relative to the damaged node) for the others; no QName-valued '
+               'content, so a rebinding never changes the meaning of a value',
                'faults are generated so that they invalidate by construction (required items removed, undeclared '
                'items added, order violated in a strictly ordered sequence, lexically invalid values for typed items)',
                'main schema family: no wildcards, no substitution groups, no identity constraints, no ID/IDREF, no '
@@ -172,13 +186,41 @@ NA11_XSD = f'''<xs:schema xmlns:xs="http://www.w3.org/2001/XMLSchema" targetName
 </xs:schema>'''
 
 
+# the same local name in the target namespace, in no namespace and (wildcard, skip) in another namespace, freely
+# interleaved among the siblings: the positional predicate of a step counts the siblings with the same EXPANDED name
+SAME_XSD = f'''<xs:schema xmlns:xs="http://www.w3.org/2001/XMLSchema" targetNamespace="{TNS}" xmlns:t="{TNS}"
+ elementFormDefault="unqualified">
+ <xs:element name="r"><xs:complexType><xs:choice maxOccurs="unbounded">
+   <xs:element name="e" form="qualified" type="t:E"/>
+   <xs:element name="e" form="unqualified" type="t:E"/>
+   <xs:any namespace="##other" processContents="skip"/>
+  </xs:choice></xs:complexType></xs:element>
+ <xs:complexType name="E"><xs:choice minOccurs="0" maxOccurs="unbounded">
+   <xs:element name="v" form="qualified" type="xs:int"/>
+   <xs:element name="v" form="unqualified" type="xs:int"/>
+  </xs:choice><xs:attribute name="k" type="xs:int"/></xs:complexType>
+</xs:schema>'''
+
+# XSD 1.1 inheritable attributes (elements.py:716-723 copies the validation context below an element that carries one)
+INH_XSD = '''<xs:schema xmlns:xs="http://www.w3.org/2001/XMLSchema">
+ <xs:element name="r"><xs:complexType><xs:sequence>
+   <xs:element name="a" type="xs:int" maxOccurs="unbounded"/>
+   <xs:element name="g" minOccurs="0" maxOccurs="unbounded"><xs:complexType><xs:sequence>
+      <xs:element name="b" type="xs:int"/></xs:sequence>
+     <xs:attribute name="lang" type="xs:language" inheritable="true"/><xs:attribute name="n" type="xs:int"/>
+    </xs:complexType></xs:element>
+  </xs:sequence><xs:attribute name="lang" type="xs:language" inheritable="true"/><xs:attribute name="n" type="xs:int"/>
+ </xs:complexType></xs:element>
+</xs:schema>'''
+
+
 def schema(form: str):
     if form not in _SCHEMAS:
         import xmlschema
-        if form == 'na11':
-            _SCHEMAS[form] = xmlschema.XMLSchema11(NA11_XSD)
+        if form in ('na11', 'inh11'):
+            _SCHEMAS[form] = xmlschema.XMLSchema11({'na11': NA11_XSD, 'inh11': INH_XSD}[form])
         else:
-            _SCHEMAS[form] = xmlschema.XMLSchema({'wild': WILD_XSD, 'big': BIG_XSD}.get(form) or xsd(form))
+            _SCHEMAS[form] = xmlschema.XMLSchema({'wild': WILD_XSD, 'big': BIG_XSD, 'same': SAME_XSD}.get(form) or xsd(form))
     return _SCHEMAS[form]
 
 
@@ -534,13 +576,20 @@ def etree_find(root, path: str, ns: dict, parser: str) -> Any:
         return []
     if len(parts) == 1:
         return [root]
-    nsarg: dict = dict(ns)
-    if parser == 'lxml':                      # lxml spells the default namespace with the key None
-        nsarg = {(k or None): v for k, v in ns.items() if k or v}
-    elif nsarg.get('') == '':
-        del nsarg['']
+    # the default namespace is applied here: CPython's ElementPath tokenizer also qualifies the digits of a positional
+    # predicate with it (`item[2]` -> `item[{urn:t}2]`), a defect of CPython and not of the library under check
+    nsarg = {k: v for k, v in ns.items() if k}
+    steps = []
+    for part in parts[1:]:
+        m = STEP.match(part)
+        if not m:
+            return 'unreadable'
+        nm = m.group(1)
+        if nm[:1] != '{' and ':' not in nm and ns.get(''):
+            nm = '{%s}%s' % (ns[''], nm)
+        steps.append(nm + (f'[{m.group(2)}]' if m.group(2) else ''))
     try:
-        return root.findall('./' + '/'.join(parts[1:]), nsarg)
+        return root.findall('./' + '/'.join(steps), nsarg)
     except (SyntaxError, KeyError, ValueError) as exc:
         return 'unreadable: ' + type(exc).__name__
 
@@ -610,6 +659,15 @@ def position_of(root, elem) -> Optional[tuple]:
     return None
 
 
+def split_tag(tag: str) -> list:
+    return tag[1:].split('}', 1) if tag[:1] == '{' else ['', tag]
+
+
+def qtree(e) -> dict:
+    """the tree of expanded names"""
+    return {'q': split_tag(e.tag), 'c': [qtree(c) for c in elem_children(e)]}
+
+
 def rendered_tree(e, ns: dict) -> dict:
     from xmlschema.utils.qnames import get_prefixed_qname
     return {'t': get_prefixed_qname(e.tag, ns) if ns else e.tag, 'c': [rendered_tree(c, ns) for c in elem_children(e)]}
@@ -619,13 +677,20 @@ def known_match(case: dict, detail: dict) -> Optional[str]:
     """C19-F1: a step for an element in no namespace is written as a bare local name while the error's
     namespace map binds the empty prefix, so a reader takes it into the default namespace."""
     if detail.get('kind') == 'path' and 'only_f1' in detail:
-        # exact: every reader selects nothing, and the bare steps of no-namespace elements under a bound default are
-        # the only thing wrong with the path (`only_f1_wrong`): a path written with a stale or foreign namespace map,
-        # a wrong position, a wrong name are NOT this finding
-        return 'C19-F1' if detail['only_f1'] and detail.get('selected') == [] else None
+        # exact: the three readers agree (the path selects nothing, or same-named elements of the default namespace),
+        # and the bare steps of no-namespace elements under a bound default are the only thing wrong with the path
+        # (`only_f1_wrong`): a path written with a stale or foreign namespace map, a wrong position, a wrong name are
+        # NOT this finding
+        return 'C19-F1' if detail['only_f1'] else None
     if detail.get('kind') == 'path' and (detail.get('namespaces') or {}).get('') and detail.get('nons_step') \
             and not detail.get('selected') and 'rendered' in detail:
         return 'C19-F1'                           # `renders`: a single name
+    # C19-F3: XSD 1.1, the fault is reported by an element at or below one that carries an inheritable attribute: the
+    # error goes to the `errors` list of a copied validation context and is lost (validation.py:178-195 __copy__,
+    # elements.py:716-723); exact: only the family with inheritable attributes, only the cases whose generator
+    # says that the reporting element's context is a copy, only the outcome "no error at all"
+    if detail.get('kind') == 'valid' and case.get('form') == 'inh11' and case.get('inheritable_above') is True:
+        return 'C19-F3'
     # C19-F2: the content model of the damaged node's parent is broken by the fault, the schema family has a wildcard
     # beside a same-named declaration, and every out-of-zone error lies at or below a *sibling* of the damaged node
     # (the siblings are re-matched by name once the model is broken, groups.py:1013-1041).
@@ -784,7 +849,14 @@ def run_case(ctx: Ctx, case: dict, xml: str, form: str, parser: str, damaged: Op
                 obs['doc'] = doc_of(root)
         return obs
     if not errors:
-        ctx.failure('a document damaged at a single node is reported valid', case, {'damaged': list(damaged)})
+        detail = {'kind': 'valid', 'damaged': list(damaged)}
+        fid = known_match(case, detail)
+        if fid:
+            ctx.known_hit(fid)
+            ctx.count('known:' + fid)
+            ctx.case(case, False, tag=f"{case['fault']}/{parser} (reported valid: {fid})")
+        else:
+            ctx.failure('a document damaged at a single node is reported valid', case, detail)
         return
     located = []
     nontrivial = False
@@ -813,7 +885,7 @@ def run_case(ctx: Ctx, case: dict, xml: str, form: str, parser: str, damaged: Op
             detail = {'kind': 'path', 'path': path, 'namespaces': ns,
                       'selected': None if sel is None else [position_of(root, x) for x in sel],
                       'readers': shown, 'only_f1': only_f1_wrong(root, pos, path, ns) and
-                      all(r == [] for r in readers.values()),
+                      all(isinstance(r, list) and r == sel for r in readers.values()),
                       'nons_step': any(x.tag[:1] != '{' for x in chain), 'element': e.elem.tag,
                       'element_position': list(pos), 'reason': str(e.reason)[:120]}
             fid = known_match(case, detail)
@@ -823,8 +895,12 @@ def run_case(ctx: Ctx, case: dict, xml: str, form: str, parser: str, damaged: Op
             else:
                 ctx.failure('error path does not select exactly the element the error is about', case, detail)
                 return
+        else:
+            ctx.count('error path read with the error\'s namespaces by 3 readers: exactly the element')
+        if any(source.get_xmlns(at_elem(root, pos[:k])) for k in range(1, len(pos) + 1)):
+            ctx.count('errors at or below a non-root element with xmlns declarations')
         located.append(pos)
-        positions.append((list(pos), path, ns))
+        positions.append((list(pos), path, ns, None if sel is None else [list(position_of(root, x)) for x in sel]))
         parent = at_elem(root, pos[:-1]) if pos else None
         if len(pos) >= 2 or (parent is not None and sum(1 for c in elem_children(parent) if c.tag == e.elem.tag) > 1):
             nontrivial = True
@@ -846,10 +922,15 @@ def run_case(ctx: Ctx, case: dict, xml: str, form: str, parser: str, damaged: Op
         ctx.failure('no error is located at the damaged node or its parent', case,
                     {'damaged': list(damaged), 'located': [list(p) for p in located]})
     ctx.case(case, nontrivial, tag=f"{case['fault']}/{parser}")
-    # model side
-    ns0 = positions[0][2]
-    reqs.append({'tree': rendered_tree(root, ns0), 'pos': [p for p, _, _ in positions]})
-    pend.append((case, positions))
+    # model side: etree_getpath on the tree of expanded names, the names written with the map the error carries and
+    # read back with it (Model/PathsNs.lean); one request per distinct map (the errors of a run share one)
+    by_ns: dict = {}
+    for p in positions:
+        by_ns.setdefault(json.dumps(list(p[2].items())), []).append(p)
+    qt = qtree(root)
+    for key, ps in by_ns.items():
+        reqs.append({'op': 'nspath', 'tree': qt, 'ns': json.loads(key), 'read': json.loads(key), 'pos': [p[0] for p in ps]})
+        pend.append((case, ps))
     # fault-localisation model: the table-driven validator's prediction for `Fault.apply fault valid_doc`
     if tabs is not None and loc is not None and loc.get('valid') is not None:
         obs = tabs.observe(root, used, errors)
@@ -940,20 +1021,26 @@ def compare(ctx: Ctx, drv: Driver, reqs: list, pend: list) -> None:
         if 'err' in m:
             ctx.mismatch('driver error', case, None, m)
             continue
-        for (pos, path, ns), r in zip(positions, m['r']):
+        for (pos, path, ns, sel), r in zip(positions, m['r']):
             ctx.traces += 1
             if r['path'] != path:
-                ctx.mismatch('error.path vs model getPath', case, path, r['path'])
-            elif r['sel'] != [pos]:
-                ctx.mismatch('model select of the path', case, [pos], r['sel'])
+                ctx.mismatch('error.path vs model getPath on expanded names + renderPath with the error\'s map',
+                             case, path, r['path'])
+            elif r['sel'] != sel:
+                ctx.mismatch('model userSelect vs the harness reading of the path (error\'s map)', case, sel, r['sel'])
+            elif sel == [pos]:
+                ctx.count('path read with the error\'s map selects exactly the element (model and real)')
 
 
-def explore(ctx: Ctx, drv: Optional[Driver], tabs: Optional[Tables] = None) -> None:
+def explore(ctx: Ctx, drv: Optional[Driver], tabs: Optional[Tables] = None, n_docs: Optional[int] = None,
+            stop_after: int = 40, deadline: Optional[float] = None) -> None:
+    import time
     rng = ctx.rng
-    n_docs = ctx.pick(70, 700)
+    n_docs = n_docs or ctx.pick(70, 700)
     reqs: list = []
     pend: list = []
     layouts = ['prefixed', 'default', 'both']
+    rot = [rng.randrange(1000)]
     for di in range(n_docs):
         size = rng.choice([0, 1, 1, 2])
         doc = gen_valid(rng, size)
@@ -988,7 +1075,8 @@ def explore(ctx: Ctx, drv: Optional[Driver], tabs: Optional[Tables] = None) -> N
                 # four, otherwise on non-root elements: an action of kind NS_ACTIONS[..] on the node that is the damaged
                 # node itself / its parent / a sibling / a descendant / a non-root ancestor (rotating, so that every
                 # fault class meets every combination), plus a few random actions elsewhere
-                nsk = ctx.extra['ns rotation'] = ctx.extra.get('ns rotation', rng.randrange(1000)) + 1
+                rot[0] += 1
+                nsk = rot[0]
                 if nsk % 4 == 0:
                     xml = to_xml(mutated, layout, form, comments)
                     nsplan = 'root-only'
@@ -1018,13 +1106,21 @@ def explore(ctx: Ctx, drv: Optional[Driver], tabs: Optional[Tables] = None) -> N
                                  loc=locs[parser])
                     except Exception as e:  # noqa
                         ctx.failure('validation raised', case, {'exception': repr(e)[:300]})
-            if len(ctx.failures) >= 40:
+            if len(ctx.failures) >= stop_after:
                 break
         if drv is not None and tabs is not None:
             compare_localise(ctx, drv, list(locs.values()))
         if ctx.time_left() < 120:
             ctx.notes.append('exploration stopped early (time budget)')
             break
+        if len(ctx.failures) >= stop_after:
+            ctx.notes.append(f'exploration stopped after {len(ctx.failures)} failing inputs')
+            break
+        if deadline is not None and time.time() > deadline:
+            break
+        if drv is not None and len(reqs) >= 3000:
+            compare(ctx, drv, reqs, pend)
+            del reqs[:], pend[:]
     if drv is not None:
         compare(ctx, drv, reqs, pend)
 
@@ -1122,14 +1218,22 @@ def lazy_paths(ctx: Ctx, drv: Optional[Driver]) -> None:
         return path
 
     jobs = []
-    for _ in range(ctx.pick(24, 150)):
+    for _ in range(ctx.pick(40, 200)):
         doc = gen_valid(rng, 1)
         fl: list = []
         while not fl:
             pos, _n = rng.choice(list(nodes(doc)))
             fl = [f for f in faults_at(doc, pos, rng) if f[0] != 'admitted attribute']
         kind, mutated, damaged, _mf = rng.choice(fl)
-        jobs.append(('qualified', to_xml(mutated, 'prefixed', 'qualified'), rng.choice([1, 1, 2, 3]), kind))
+        if len(jobs) % 2:
+            # declarations on non-root elements: the namespace map in force when the lazy error is created is not the
+            # root-level one
+            lxml_ = to_xml_scoped(mutated, 'qualified', make_plan(mutated, tuple(damaged), rng.choice(NS_RELS),
+                                                                 rng.choice(NS_ACTIONS), rng, 0.1), rng, False,
+                                  rng.choice(ROOT_STYLES))
+        else:
+            lxml_ = to_xml(mutated, 'prefixed', 'qualified')
+        jobs.append(('qualified', lxml_, rng.choice([1, 1, 2, 3]), kind))
     # documents larger than the parser's read block: later siblings do not exist yet when the error is created
     jobs.append(('big', big_xml(3, 3000, {(0, 1), (2, 0)}), 2, 'bad value'))     # witness of lazy_path_counterexample
     for _ in range(ctx.pick(3, 12)):
@@ -1137,6 +1241,7 @@ def lazy_paths(ctx: Ctx, drv: Optional[Driver]) -> None:
         bad = {(rng.randrange(items), rng.randrange(per)) for _ in range(2)}
         jobs.append(('big', big_xml(items, per, bad), rng.choice([1, 2]), 'bad value'))
     same = diff = ambiguous = 0
+    user: dict = {}
     reqs, pend = [], []
     exc_mod.etree_getpath = spy
     try:
@@ -1149,7 +1254,10 @@ def lazy_paths(ctx: Ctx, drv: Optional[Driver]) -> None:
             del records[:]
             cur['res'] = res = xmlschema.XMLResource(xml, lazy=k)
             try:
-                lazy_paths_ = sorted(str(e.path) for e in schema(form).iter_errors(res))
+                lazy_errs = []
+                for e in schema(form).iter_errors(res):
+                    lazy_errs.append((e, e.path, dict(e.namespaces or {})))      # read while iterating
+                lazy_paths_ = sorted(str(p_) for _e, p_, _n in lazy_errs)
             except Exception as e:  # noqa
                 cur['res'] = None
                 ctx.count('lazy: iter_errors raised ' + type(e).__name__)
@@ -1170,6 +1278,18 @@ def lazy_paths(ctx: Ctx, drv: Optional[Driver]) -> None:
                 ctx.mismatch('lazy error.path vs the path computed at creation for the element the error is about',
                              case, lazy_paths_, expected)
             full_root = ET.fromstring(xml)
+            # as a user reads a lazy error: error.path with error.namespaces, read while iterating / after the run
+            # (reported, no verdict: the property is about fully loaded documents)
+            for e, p_, ns_during in lazy_errs:
+                about = [r['pos'] for r in records if r['path'] == p_]
+                for when, ns_ in (('while iterating', ns_during), ('after the run', dict(e.namespaces or {}))):
+                    sel_ = xpath_select(full_root, p_, ns_) if p_ else None
+                    got = None if sel_ is None else [position_of(full_root, x) for x in sel_]
+                    res_ = 'cannot be read' if got is None else \
+                        'selects exactly the element' if about and got == [about[0]] else \
+                        'selects the element and others' if about and about[0] in got else 'does not select the element'
+                    ctx.count(f'lazy: error.path read with error.namespaces {when}: {res_}')
+                    user[f'{when}: {res_}'] = user.get(f'{when}: {res_}', 0) + 1
             for r in records:
                 if r['pos'] is None:
                     ctx.mismatch('lazy: error element is not in the tree of the resource', case, None, None)
@@ -1216,6 +1336,7 @@ def lazy_paths(ctx: Ctx, drv: Optional[Driver]) -> None:
     ctx.extra['lazy_paths'] = {
         'runs with the same error paths as full loading': same, 'runs with different paths': diff,
         'error paths that select several elements of the document': ambiguous,
+        'error.path read with error.namespaces (as a user would)': user,
         'note': 'no verdict (the property is about fully loaded documents); proved: the path always selects the '
                 'element (lazy_path_contains), exactly when no sibling on the way is missing (lazy_path_exact_partial); '
                 'lazy_path_counterexample is replayed with a document larger than the read block'}
@@ -1296,6 +1417,127 @@ def na11_family(ctx: Ctx, drv: Optional[Driver]) -> None:
         compare_localise(ctx, drv, locs)
 
 
+# ------------------------------------------------------------------------------------------------
+# siblings with the same local name in different namespaces (schema SAME_XSD), namespaces declared anywhere
+def same_family(ctx: Ctx, drv: Optional[Driver]) -> None:
+    rng = ctx.rng
+    tabs = Tables()
+    reqs: list = []
+    pend: list = []
+    k = rng.randrange(1000)
+    for di in range(ctx.pick(40, 400)):
+        es = []
+        for _ in range(rng.randrange(2, 7)):
+            ns = rng.choice([TNS, TNS, '', '', XNS])
+            vs = [{'n': 'v', 'ns': rng.choice([TNS, '']) if ns != XNS else rng.choice([TNS, '', XNS]), 'a': {},
+                   't': str(rng.randrange(99)), 'c': []} for _ in range(rng.choice([0, 1, 2, 3, 4]))]
+            es.append({'n': 'e', 'ns': ns, 'a': ({'k': '1'} if rng.random() < 0.4 else {}), 't': None, 'c': vs})
+        doc = {'n': 'r', 'ns': TNS, 'a': {}, 't': None, 'c': es}
+        base = {'doc': f'same{di}', 'form': 'same', 'layout': 'scoped', 'comments': False}
+        faults = []
+        for i, e in enumerate(es):
+            if e['ns'] == XNS:
+                continue                          # matched by the skip wildcard: not governed, not a fault site
+            for j, _v in enumerate(e['c']):
+                m = clone_ns(doc)
+                m['c'][i]['c'][j]['t'] = 'bad'
+                faults.append(('bad value', m, (i, j)))
+            m = clone_ns(doc)
+            m['c'][i]['a']['k'] = 'x9'
+            faults.append(('bad attribute value', m, (i,)))
+            m = clone_ns(doc)
+            j = rng.randrange(len(e['c']) + 1)
+            m['c'][i]['c'].insert(j, {'n': rng.choice(['bogus', 'v', 'e']), 'ns': rng.choice([XNS, ONS]), 'a': {}, 't': None,
+                                      'c': []})
+            faults.append(('extra child', m, (i, j)))
+        m = clone_ns(doc)
+        j = rng.randrange(len(es) + 1)
+        m['c'].insert(j, {'n': 'bogus', 'ns': rng.choice([TNS, '']), 'a': {}, 't': None, 'c': []})
+        faults.append(('extra child', m, (j,)))
+        vxml = to_xml_scoped(doc, 'same', make_plan(doc, (), 'self', rng.choice(NS_ACTIONS), rng, 0.2), rng, False,
+                             rng.choice(ROOT_STYLES))
+        for parser in ('etree', 'lxml'):
+            case = dict(base, fault=None, parser=parser, xml=vxml)
+            ctx.case(case, False, tag=f'same-name family: valid document/{parser}')
+            run_case(ctx, case, vxml, 'same', parser, None, reqs, pend, tabs=tabs)
+        for kind, m, damaged in faults:
+            k += 1
+            rel, act = NS_RELS[k % len(NS_RELS)], NS_ACTIONS[(k // len(NS_RELS)) % len(NS_ACTIONS)]
+            xml = to_xml_scoped(m, 'same', make_plan(m, damaged, rel, act, rng, 0.1), rng, False, ROOT_STYLES[k % 4])
+            ctx.count('same-name family: namespace declarations:' + rel + '/' + act)
+            for parser in ('etree', 'lxml'):
+                case = dict(base, fault=kind, node=list(damaged), damaged=list(damaged), nsplan=f'{rel}/{act}',
+                            parser=parser, xml=xml)
+                run_case(ctx, case, xml, 'same', parser, damaged, reqs, pend, tabs=tabs)
+        if len(ctx.failures) >= 40:
+            break
+    ctx.traces += tabs.own_checks + tabs.gov_checks
+    for c in tabs.own_conflicts[:2] + tabs.gov_conflicts[:2]:
+        ctx.mismatch('H-own / H-gov (same-name family)', c['key'], c['now'], c['first'])
+    if drv is not None:
+        compare(ctx, drv, reqs, pend)
+
+
+def clone_ns(d: dict) -> dict:
+    return {'n': d['n'], 'ns': d['ns'], 'a': dict(d['a']), 't': d['t'], 'c': [clone_ns(c) for c in d['c']]}
+
+
+# ------------------------------------------------------------------------------------------------
+# XSD 1.1 inheritable attributes: "a single fault is always reported" below an element that carries one
+def inh11_family(ctx: Ctx, drv: Optional[Driver]) -> None:
+    rng = ctx.rng
+    reqs: list = []
+    pend: list = []
+
+    def ser(d: dict) -> str:
+        attrs = ''.join(f' {k}="{v}"' for k, v in d['a'].items())
+        return f"<{d['n']}{attrs}>{d['t'] or ''}{''.join(ser(c) for c in d['c'])}</{d['n']}>"
+    for di in range(ctx.pick(16, 120)):
+        def attrs() -> dict:
+            a = {}
+            if rng.random() < 0.5:
+                a['lang'] = 'en'
+            if rng.random() < 0.5:
+                a['n'] = '3'
+            return a
+        kids = [{'n': 'a', 'a': {}, 't': str(rng.randrange(9)), 'c': []} for _ in range(rng.randrange(1, 4))]
+        kids += [{'n': 'g', 'a': attrs(), 't': None, 'c': [{'n': 'b', 'a': {}, 't': '4', 'c': []}]}
+                 for _ in range(rng.randrange(3))]
+        doc = {'n': 'r', 'a': attrs(), 't': None, 'c': kids}
+        base = {'doc': f'inh11-{di}', 'form': 'inh11', 'layout': 'none', 'comments': False, 'parser': 'etree'}
+        run_case(ctx, dict(base, fault=None, xml=ser(doc)), ser(doc), 'inh11', 'etree', None, reqs, pend)
+        # (kind, mutated, damaged node, owner = the element whose validation reports the fault, attribute fault?)
+        faults = []
+        for pos, n in nodes(doc):
+            if n['n'] in 'ab':
+                m = clone(doc)
+                at(m, pos)['t'] = 'bad'
+                faults.append(('bad value', m, pos, pos, False))
+                continue
+            m = clone(doc)
+            at(m, pos)['a']['n'] = 'x9'
+            faults.append(('bad attribute value', m, pos, pos, True))
+            m = clone(doc)
+            i = rng.randrange(len(n['c']) + 1)
+            at(m, pos)['c'].insert(i, {'n': 'bogus', 'a': {}, 't': None, 'c': []})
+            faults.append(('extra child', m, pos + (i,), pos, False))
+            if n['n'] == 'g':
+                m = clone(doc)
+                del at(m, pos)['c'][0]
+                faults.append(('missing child', m, pos, pos, False))
+        for kind, m, damaged, owner, is_attr in faults:
+            # the errors of the owner are collected in a copied context (and lost, finding C19-F3) iff a proper ancestor
+            # of the owner carries an inheritable attribute, or the owner itself does and the fault is in its content
+            # (the attributes of an element are checked before its context is copied)
+            above = any('lang' in at(m, owner[:k])['a'] for k in range(len(owner))) or \
+                (not is_attr and 'lang' in at(m, owner)['a'])
+            case = dict(base, fault=kind, node=list(owner), damaged=list(damaged), inheritable_above=above, xml=ser(m))
+            ctx.count(f'inheritable family: {kind}, inheritable attribute above: {above}')
+            run_case(ctx, case, case['xml'], 'inh11', 'etree', damaged, reqs, pend)
+    if drv is not None:
+        compare(ctx, drv, reqs, pend)
+
+
 def renders(ctx: Ctx, drv: Optional[Driver]) -> None:
     """get_prefixed_qname on random maps against the model; a rendered name must read back to the tag"""
     from xmlschema.utils.qnames import get_prefixed_qname
@@ -1351,6 +1593,8 @@ def run(ctx: Ctx, driver_ok: bool) -> None:
                                'declarations': len(tabs.decl)}
     wild_family(ctx, drv)
     na11_family(ctx, drv)
+    same_family(ctx, drv)
+    inh11_family(ctx, drv)
     renders(ctx, drv)
     lazy_paths(ctx, drv)
     ctx.extra['explanation'] = ('every fault of the catalogue at every node (documents <= 40 nodes exhaustively, 40 seeded '
@@ -1358,13 +1602,14 @@ def run(ctx: Ctx, driver_ok: bool) -> None:
 
 
 def search(ctx: Ctx) -> None:
-    if ctx.quick():
-        saved = ctx.tier
-        ctx.tier = 'thorough'
-        try:
-            explore(ctx, None, Tables())
-        finally:
-            ctx.tier = saved
+    """a proof or the correspondence broke and nothing failed on the real code: more documents of the main family (every
+    fault at every node, namespaces declared anywhere) and of the same-name family, property evaluation only (no
+    driver), stopping at the first failing input and after 60 s"""
+    import time
+    deadline = time.time() + 60
+    explore(ctx, None, None, n_docs=ctx.pick(150, 300), stop_after=1, deadline=deadline)
+    if not ctx.failures and time.time() < deadline:
+        same_family(ctx, None)
 
 
 def replay(ctx: Ctx, obj: dict) -> int:
@@ -1382,8 +1627,8 @@ def replay(ctx: Ctx, obj: dict) -> int:
         print('REAL  error:', e.path, '|', str(e.reason)[:100])
     try:
         for (c, positions), m in zip(pend, Driver('drv_c19').query(reqs)):
-            for (pos, path, ns), r in zip(positions, m['r']):
-                print('MODEL path :', r['path'], 'selects', r['sel'], '(element at', pos, ')')
+            for (pos, path, ns, _sel), r in zip(positions, m['r']):
+                print('MODEL path :', r['path'], 'read with', ns, 'selects', r['sel'], '(element at', pos, ')')
     except Exception as e:  # noqa
         print('model not available:', e)
     for f in ctx.failures:
